@@ -1,10 +1,98 @@
-(** C09 — Length, SplitAt and Reverse are consistent views of the same curve.  Property theorems only. *)
+(** C09 — Length, SplitAt and Reverse are consistent views of the same curve.
+    Property theorems only; each is closed by [exact] of a lemma proved elsewhere.
+    Models: Split/Reverse.v (faithful Path.Reverse on the structural path of PathEnc/Enc.v), Split/SplitAt.v
+    (faithful SplitAt bookkeeping on polylines), Split/Cert.v (sub-curve checker, length enclosures). *)
 From Coq Require Import ZArith QArith List Bool.
-From CV Require Import Geom.Matrix Geom.Bezier Split.Cert.
+From CV Require Import Geom.Winding.
+From CV Require Import PathEnc.Enc Geom.Matrix Geom.Bezier Split.Reverse Split.SplitAt Split.Cert Split.ReverseProofs Split.SplitProofs.
 Import ListNotations.
 Open Scope Q_scope.
+
+(** reverse_points — FULL for an open subpath with any mix of LineTo/QuadTo/CubeTo/ArcTo records: Reverse emits
+    MoveTo(last point) and then the records in reverse order, same kinds, quadratic control kept, cubic controls
+    swapped, arc sweep flag flipped, each ending where its predecessor ended (rev_spec). *)
+Theorem C09_reverse_open : forall p0 body, all_draw body ->
+  reverse (SM p0 :: body) = SM (seg_end (last body (SM p0))) :: rev_spec (rev body) p0.
+Proof. exact reverse_open. Qed.
+Print Assumptions C09_reverse_open.
+
+Theorem C09_reverse_points : forall p0 body, all_draw body ->
+  map seg_end (reverse (SM p0 :: body)) = rev (map seg_end (SM p0 :: body)).
+Proof. exact reverse_points. Qed.
+Print Assumptions C09_reverse_points.
+
+(** Reverse works subpath by subpath, for every record type and closed or open subpaths: the last subpath comes first *)
+Theorem C09_reverse_subpaths : forall a q body, a <> [] -> no_move body ->
+  reverse (a ++ SM q :: body) = reverse (SM q :: body) ++ reverse a.
+Proof. exact reverse_app. Qed.
+Print Assumptions C09_reverse_subpaths.
+
+(** reverse_closed — FULL for closed polygons (Close of positive length): M p0 L p1 .. L pn z  becomes
+    M p0 L pn .. L p1 z: still closed, same start, vertices in reverse order *)
+Theorem C09_reverse_closed_polygon : forall p0 p1 ps, pt_eqb p0 (last (p1 :: ps) p0) = false ->
+  reverse (SM p0 :: lines (p1 :: ps) ++ [SZ p0]) = SM p0 :: lines (rev (p1 :: ps)) ++ [SZ p0].
+Proof. exact reverse_closed_polygon. Qed.
+Print Assumptions C09_reverse_closed_polygon.
+
+(** reverse_involutive — PARTIAL: proved for closed polygons in the documented normal form (first edge and closing edge
+    of positive length).  Full statement: reverse (reverse p) = nf p for every well-formed p (nf: a LineTo back to the
+    start followed by a zero-length Close is a Close), and reverse (reverse (reverse p)) = reverse p.  Missing: open
+    subpaths with curves (follows from C09_reverse_open by an induction not finished) and closed subpaths whose first
+    record is a curve; both are checked on every run (flag 32 of the judge: nf(RR) = nf(p) and RRR = R on the Go output). *)
+Theorem C09_reverse_involutive_partial : forall p0 p1 ps,
+  pt_eqb p0 (last (p1 :: ps) p0) = false -> pt_eqb p0 p1 = false ->
+  reverse (reverse (SM p0 :: lines (p1 :: ps) ++ [SZ p0])) = SM p0 :: lines (p1 :: ps) ++ [SZ p0].
+Proof. exact reverse_involutive_polygon. Qed.
+Print Assumptions C09_reverse_involutive_partial.
+
+Theorem C09_flip_sweep_involutive : forall fl, In fl [0; 1; 2 # 1; 3 # 1] -> flip_sweep (flip_sweep fl) = fl.
+Proof. exact flip_sweep_invol. Qed.
+Print Assumptions C09_flip_sweep_involutive.
+
+(** wn_reverse — FULL for one contour and every point not level with a vertex: the reversed polygon
+    (v0 vn .. v1, which is what Reverse produces by C09_reverse_closed_polygon) has the negated winding number *)
+Theorem C09_wn_reverse : forall v0 vs p, (forall v, In v (v0 :: vs) -> snd p <> snd v) ->
+  wn_contour (v0 :: rev vs) p = (- wn_contour (v0 :: vs) p)%Z.
+Proof. exact wn_reverse_contour. Qed.
+Print Assumptions C09_wn_reverse.
+
+(** subcurve_cert_sound — FULL: a piece accepted by the checker is, for EVERY parameter t in [0,1], within the slack of
+    the input segment at s + t(u-s), with 0 <= s <= u <= 1 (exact blossom identities: C09_sub*_eval for all t) *)
+Theorem C09_subcurve_cert_sound_cubic : forall sl a b c d a' b' c' d' s u,
+  sub_ok sl [a; b; c; d] [a'; b'; c'; d'] s u = true ->
+  0 <= s /\ s <= u /\ u <= 1 /\
+  forall t, 0 <= t <= 1 -> near sl (Bcube a' b' c' d' t) (Bcube a b c d (s + t * (u - s))).
+Proof. exact sub_ok_sound_cubic. Qed.
+Print Assumptions C09_subcurve_cert_sound_cubic.
+
+Theorem C09_subcurve_cert_sound_quad : forall sl a b c a' b' c' s u,
+  sub_ok sl [a; b; c] [a'; b'; c'] s u = true ->
+  0 <= s /\ s <= u /\ u <= 1 /\
+  forall t, 0 <= t <= 1 -> near sl (Bquad a' b' c' t) (Bquad a b c (s + t * (u - s))).
+Proof. exact sub_ok_sound_quad. Qed.
+Print Assumptions C09_subcurve_cert_sound_quad.
 
 Theorem C09_sub3_eval : forall a b c d s u t,
   let '(a', b', c', d') := sub3 a b c d s u in bcube a' b' c' d' t == bcube a b c d (s + t * (u - s)).
 Proof. exact sub3_eval. Qed.
 Print Assumptions C09_sub3_eval.
+
+Theorem C09_sub2_eval : forall a b c s u t,
+  let '(a', b', c') := sub2 a b c s u in bquad a' b' c' t == bquad a b c (s + t * (u - s)).
+Proof. exact sub2_eval. Qed.
+Print Assumptions C09_sub2_eval.
+
+(** the square-root brackets used by the length enclosures are sound: lo^2 <= x <= hi^2 *)
+Theorem C09_sqrt_bracket : forall k x, 0 <= x -> sqrt_lo k x * sqrt_lo k x <= x /\ x <= sqrt_hi k x * sqrt_hi k x.
+Proof. exact sqrt_bracket. Qed.
+Print Assumptions C09_sqrt_bracket.
+
+(** splitat_multisubpath — REFUTED on the unchanged tree (993e137): M0 0L10 0M100 100L110 100 split at 5, 15: the point
+    (110,100) of the input is on no piece.  After "fix: SplitAt reads each subpath's own data ..." the model of the fixed
+    code returns M0 0L5 0 / M5 0L10 0M100 100L105 100 / M105 100L110 100 (SplitProofs.splitat_multisubpath_fixed) and the
+    property is judged on every generated multi-subpath input by the certified tiling check. *)
+Theorem C09_splitat_multisubpath_refuted_v0 :
+  exists sps ts qs, split_at len1 true sps ts = Some qs /\
+    exists p, In p (concat sps) /\ forallb (fun q => negb (pt_eqb p q)) (all_points qs) = true.
+Proof. exact splitat_multisubpath_refuted_v0. Qed.
+Print Assumptions C09_splitat_multisubpath_refuted_v0.
